@@ -2,7 +2,7 @@
 
 use super::explore::{self, bfs, Event, Monitor, Step, Target, TimeDetail};
 use super::server::{RClass, RMac, Reply};
-use super::world::{CallRes, Cfg, FinalKind, Mech, OEv, Reason, Transport, Who, World, PASS, USER};
+use super::world::{CallRes, Cfg, FinalKind, Mech, OEv, Reason, Transport, Who, World};
 use crate::refs::codec::{self, ref_parse, L};
 use crate::util::{Finish, Report, RunCtx, Shared};
 use rayon::prelude::*;
@@ -21,6 +21,9 @@ pub struct Mon {
     /// narrow alphabet (many requests in flight): Send, Timer, AdvanceTo, and per awaiting request one acceptable and
     /// one wrongly keyed reply
     pub narrow: bool,
+    /// number of application attribute lists offered to Send / Indicate (list 0 is empty; the others pre-populate
+    /// USERNAME and integrity attributes keyed by the application)
+    pub app_lists: usize,
     agreed: Option<Alg>,
     /// per request: a response with wrong / absent integrity was received (unreliable transport)
     violated: Vec<bool>,
@@ -37,7 +40,7 @@ impl Mon {
             Mech::ShortTerm(Some(false)) => Some(Alg::Mi),
             _ => None,
         };
-        Mon { max_sends, narrow: false, agreed, violated: vec![], open_reason: vec![], finals_before: vec![], last_delivery: None }
+        Mon { max_sends, narrow: false, app_lists: 1, agreed, violated: vec![], open_reason: vec![], finals_before: vec![], last_delivery: None }
     }
     pub fn narrow(max_sends: usize, cfg: &Cfg) -> Mon {
         let mut m = Mon::new(max_sends, cfg);
@@ -64,11 +67,11 @@ fn mac_name(m: RMac) -> &'static str {
 }
 
 /// outgoing packet: USERNAME + integrity verifying under the password
-fn check_packet(bytes: &[u8], agreed: Option<Alg>) -> Result<(), (String, String)> {
+fn check_packet(bytes: &[u8], agreed: Option<Alg>, cr: &super::world::Creds) -> Result<(), (String, String)> {
     let p = ref_parse(bytes).map_err(|e| ("packet-unparseable".to_string(), e))?;
     let user = p.tlvs.iter().find(|t| t.ty == codec::T_USERNAME);
     match user {
-        Some(u) if u.value == USER.as_bytes() => {}
+        Some(u) if u.value == cr.user.as_bytes() => {}
         Some(u) => return Err(("wrong-username".into(), format!("{:?}", String::from_utf8_lossy(&u.value)))),
         None => return Err(("no-username".into(), "".into())),
     }
@@ -78,12 +81,12 @@ fn check_packet(bytes: &[u8], agreed: Option<Alg>) -> Result<(), (String, String
         return Err(("no-integrity-attribute".into(), "".into()));
     }
     for t in &mis {
-        if !codec::mi_ok(bytes, t, PASS.as_bytes()) {
+        if !codec::mi_ok(bytes, t, cr.pass_key.as_bytes()) {
             return Err(("MI-does-not-verify-under-the-password".into(), "".into()));
         }
     }
     for t in &shas {
-        if !codec::sha_ok(bytes, t, PASS.as_bytes()) {
+        if !codec::sha_ok(bytes, t, cr.pass_key.as_bytes()) {
             return Err(("SHA256-does-not-verify-under-the-password".into(), "".into()));
         }
     }
@@ -170,7 +173,7 @@ impl Monitor for Mon {
                 // retransmissions are copies of the packet built at send time: judge with the agreement of that time
                 let fresh = matches!(st.ev, Event::Send { .. } | Event::Indicate { .. });
                 if fresh {
-                    if let Err((k, d)) = check_packet(bytes, agreed_before) {
+                    if let Err((k, d)) = check_packet(bytes, agreed_before, &w.cfg.creds()) {
                         let what = if matches!(who, Who::Ind(_)) { "indication" } else { "request" };
                         rep.violate(format!("outgoing-{}/{}", what, k), d, replay());
                     } else {
@@ -265,6 +268,25 @@ impl Monitor for Mon {
         if w.reqs.len() < self.max_sends {
             v.push(Event::Send { app: 0 });
         }
+        if self.app_lists > 1 {
+            // application-supplied credential attributes: sends and indications with every list, one acceptable reply of
+            // either algorithm per awaiting request (so that the algorithm gets learned along the way)
+            for app in 1..self.app_lists {
+                if w.reqs.len() < self.max_sends {
+                    v.push(Event::Send { app });
+                }
+                if w.inds.len() < 2 {
+                    v.push(Event::Indicate { app });
+                }
+            }
+            let fp = if w.cfg.fingerprint { super::server::RFp::Valid } else { super::server::RFp::Absent };
+            for i in w.awaiting() {
+                for m in [RMac::Mi, RMac::Sha] {
+                    v.push(Event::Deliver { to: Target::Req(i), reply: Reply::plain(RClass::Success).with_mac(m).with_fp(fp) });
+                }
+            }
+            return v;
+        }
         if self.narrow {
             if !w.awaiting().is_empty() {
                 v.push(Event::Timer);
@@ -323,7 +345,7 @@ pub fn run(ctx: &RunCtx) -> i32 {
     let mut cfgs = vec![];
     for t in [Transport::Unreliable { rto_ms: 100, gran_ms: 1, rm: 2, rc: 2 }, Transport::Reliable { timeout_ms: 300 }] {
         for m in [Mech::ShortTerm(None), Mech::ShortTerm(Some(false)), Mech::ShortTerm(Some(true))] {
-            cfgs.push(Cfg { transport: t, mech: m, fingerprint: false, max_tx: 10 });
+            cfgs.push(Cfg { transport: t, mech: m, fingerprint: false, max_tx: 10, cred: 0, method: 1 });
         }
     }
     let depth = if thorough { 9 } else { 7 };
@@ -343,7 +365,7 @@ pub fn run(ctx: &RunCtx) -> i32 {
     {
         let mut r = Report::new();
         for (t, m) in [(Transport::Unreliable { rto_ms: 100, gran_ms: 1, rm: 2, rc: 2 }, Mech::ShortTerm(None)), (Transport::Unreliable { rto_ms: 100, gran_ms: 1, rm: 2, rc: 2 }, Mech::ShortTerm(Some(true)))] {
-            let cfg = Cfg { transport: t, mech: m, fingerprint: false, max_tx: 10 };
+            let cfg = Cfg { transport: t, mech: m, fingerprint: false, max_tx: 10, cred: 0, method: 1 };
             let st = bfs(&cfg, &apps, &Mon::new(3, &cfg), if thorough { 8 } else { 6 }, if thorough { 6_000_000 } else { 1_200_000 }, &mut r);
             r.states += st.states;
             r.transitions += st.transitions;
@@ -356,7 +378,7 @@ pub fn run(ctx: &RunCtx) -> i32 {
     {
         let mut r = Report::new();
         for (t, m) in [(Transport::Unreliable { rto_ms: 100, gran_ms: 1, rm: 2, rc: 1 }, Mech::ShortTerm(None)), (Transport::Unreliable { rto_ms: 100, gran_ms: 1, rm: 2, rc: 2 }, Mech::ShortTerm(Some(true)))] {
-            let cfg = Cfg { transport: t, mech: m, fingerprint: false, max_tx: 10 };
+            let cfg = Cfg { transport: t, mech: m, fingerprint: false, max_tx: 10, cred: 0, method: 1 };
             let st = bfs(&cfg, &apps, &Mon::narrow(4, &cfg), if thorough { 13 } else { 11 }, if thorough { 8_000_000 } else { 2_000_000 }, &mut r);
             r.states += st.states;
             r.transitions += st.transitions;
@@ -370,11 +392,39 @@ pub fn run(ctx: &RunCtx) -> i32 {
         r.sym("four-requests-narrow");
         shared.merge(r);
     }
+    // application-supplied USERNAME / MESSAGE-INTEGRITY / MESSAGE-INTEGRITY-SHA256 (keyed by the application): whatever
+    // the application put in, every packet carries exactly the client's USERNAME and integrity that verifies
+    {
+        let lists: Arc<Vec<Vec<L>>> = Arc::new(vec![
+            vec![],
+            vec![L::Sha],
+            vec![L::Mi],
+            vec![L::Mi, L::Sha, L::UserName("mallory".into())],
+            vec![L::UserName("mallory".into()), L::Software("app".into()), L::Sha, L::Mi],
+        ]);
+        let mut r = Report::new();
+        let mut cfgs_done = 0usize;
+        for t in [Transport::Unreliable { rto_ms: 100, gran_ms: 1, rm: 2, rc: 2 }, Transport::Reliable { timeout_ms: 300 }] {
+            for m in [Mech::ShortTerm(None), Mech::ShortTerm(Some(false)), Mech::ShortTerm(Some(true))] {
+                // credential set and method vary with the configuration (long password, enforced password, other methods)
+                let k = cfgs_done;
+                cfgs_done += 1;
+                let cfg = Cfg { transport: t, mech: m, fingerprint: k % 2 == 1, max_tx: 10, cred: (k % 3) as u8, method: [1u16, 0x080, 0xFFF][k % 3] };
+                let mut mon = Mon::new(3, &cfg);
+                mon.app_lists = lists.len();
+                let st = bfs(&cfg, &lists, &mon, if thorough { 6 } else { 5 }, 1_000_000, &mut r);
+                r.states += st.states;
+                r.transitions += st.transitions;
+            }
+        }
+        r.sym("application-supplied-credentials");
+        shared.merge(r);
+    }
     // run-to-completion with deviations on the default timing
     {
         let mut r = Report::new();
         for m in [Mech::ShortTerm(None), Mech::ShortTerm(Some(true))] {
-            let cfg = Cfg { transport: Transport::Unreliable { rto_ms: 500, gran_ms: 1, rm: 16, rc: 7 }, mech: m, fingerprint: false, max_tx: 10 };
+            let cfg = Cfg { transport: Transport::Unreliable { rto_ms: 500, gran_ms: 1, rm: 16, rc: 7 }, mech: m, fingerprint: false, max_tx: 10, cred: 0, method: 1 };
             let n = super::devrun::explore(&cfg, &apps, &Mon::new(3, &cfg), if thorough { 3 } else { 2 }, &mut r);
             r.add_extra("deviation_bounded_executions", n);
         }
@@ -388,9 +438,9 @@ pub fn run(ctx: &RunCtx) -> i32 {
         rep,
         Finish {
             level: "model_checking",
-            rule: format!("breadth-first exploration of the real client to depth {} for 2 transports x algorithm {{to be learned, MI, SHA256}} over {{Send (<=2), Indicate, Timer, AdvanceTo(next point, +1 ms, beyond), Deliver(each awaiting request x {{valid MI, valid SHA256, both, none, corrupted MI, corrupted SHA256, MI / SHA256 under another password}} as success (and 4 of them as error response), Deliver(indication x the 8 kinds), exact duplicate of the last buffer}}; replies are built by the reference codec with independent HMACs; plus the same alphabet with three requests in flight (one level shallower), four requests in flight over a narrow alphabet (Send, Timer, AdvanceTo, one acceptable and one wrongly keyed reply per awaiting request) four levels deeper, and deviation-bounded runs on the default timing. Monitor: agreed := configured, else learned at the first delivered response; acceptable responses are delivered, everything else is not; wrong / absent integrity => ProtectionViolated at once on reliable transport, ignored (Err, no events) on unreliable transport and ProtectionViolated instead of TimedOut at the end unless an acceptable response arrived; both-MACs and other-algorithm replies only need to be rejected; every request and indication sent carries USERNAME and integrity attributes that verify under the password (the agreed kind once agreed)", depth),
+            rule: format!("breadth-first exploration of the real client to depth {} for 2 transports x algorithm {{to be learned, MI, SHA256}} over {{Send (<=2), Indicate, Timer, AdvanceTo(next point, +1 ms, beyond), Deliver(each awaiting request x {{valid MI, valid SHA256, both, none, corrupted MI, corrupted SHA256, MI / SHA256 under another password}} as success (and 4 of them as error response), Deliver(indication x the 8 kinds), exact duplicate of the last buffer}}; replies are built by the reference codec with independent HMACs; plus the same alphabet with three requests in flight (one level shallower), four requests in flight over a narrow alphabet (Send, Timer, AdvanceTo, one acceptable and one wrongly keyed reply per awaiting request) four levels deeper, requests and indications built from 4 application attribute lists that pre-populate USERNAME / MESSAGE-INTEGRITY / MESSAGE-INTEGRITY-SHA256 under the application's own key (depth 5 / 6, algorithm learned along the way; these six configurations also rotate through three credential sets - short ASCII, 70-byte user with 129-byte password, non-ASCII user with a password rewritten by OpaqueString enforcement - methods 0x001 / 0x080 / 0xFFF and fingerprint on / off), and deviation-bounded runs on the default timing. Monitor: agreed := configured, else learned at the first delivered response; acceptable responses are delivered, everything else is not; wrong / absent integrity => ProtectionViolated at once on reliable transport, ignored (Err, no events) on unreliable transport and ProtectionViolated instead of TimedOut at the end unless an acceptable response arrived; both-MACs and other-algorithm replies only need to be rejected; every request and indication sent carries USERNAME and integrity attributes that verify under the password (the agreed kind once agreed)", depth),
             assumptions: vec!["single user / password pair".into(), "indications carrying both MACs are not judged (the statement speaks of responses)".into()],
-            required_symbols: vec!["bfs-configs", "delivered-authenticated", "ignored-unauthenticated", "protection-violated-on-reliable", "rejected-both-or-other-algorithm", "protection-violated-at-timeout", "plain-timeout", "outgoing-packet-authenticated", "deviation-runs", "Redeliver", "three-requests", "four-requests-narrow"],
+            required_symbols: vec!["bfs-configs", "delivered-authenticated", "ignored-unauthenticated", "protection-violated-on-reliable", "rejected-both-or-other-algorithm", "protection-violated-at-timeout", "plain-timeout", "outgoing-packet-authenticated", "deviation-runs", "Redeliver", "three-requests", "four-requests-narrow", "application-supplied-credentials"],
             min_outcomes: 8,
             exhaustive: true,
             bounds: json!({"depth": depth}),
